@@ -156,12 +156,20 @@ class C14(Prop):
                 # ... at top level, or inside a container (whose reader is a new one)
                 nxt = rng.choice(['{c%d}', '..\n{c%d}\n..', '""\n{c%d}\n\n{c%d}\n""', '..\n{c2}\n..']).replace('%d', str(depth))
                 parts[k + 1] = nxt + '\n\n' + parts[k + 1]
-            yield {'parts': parts, 'safeMode': mode, 'htmlReplacement': rng.choice([None, '[R]', '<i>gone</i>'])}
+            if rng.random() < 0.3:
+                # something to report in every part, each with a text of its own (deprecated existential invocations, undefined
+                # macros, illegal options): the same diagnostics whole and in parts - also when only the first call gives a
+                # callback (an option not given keeps its session value)
+                for k in range(len(parts)):
+                    w = plain(rng)
+                    parts[k] += '\n\n' + rng.choice(['%s {e%d?d%d} x', '{undef%d} %s', '%s {m1?dflt%d}', '.bogus%d = \'%s\'', '- %s {u%d?}\n\n',
+                                                       '..\n{w%d?v} %s\n..']).replace('%d', str(k + rng.randrange(3) * 10)).replace('%s', w)
+            yield {'parts': parts, 'safeMode': mode, 'htmlReplacement': rng.choice([None, '[R]', '<i>gone</i>']), 'callback_later': rng.random() < 0.7}
 
     def execute(self, case, ctx, res):
         parts = case['parts']
         first = {'src': parts[0], 'safeMode': case['safeMode'], 'htmlReplacement': case['htmlReplacement'], 'reset': True, 'callback': True}
-        steps = [first] + [{'src': p, 'callback': True} for p in parts[1:]]
+        steps = [first] + [{'src': p, 'callback': case.get('callback_later', True)} for p in parts[1:]]
         split, _, ok = run_session(ctx, steps, res, case)
         if not ok:
             res.count('not_ok')
@@ -179,7 +187,7 @@ class C14(Prop):
         if a != b:
             res.violation('rendering in parts differs from rendering whole', case, {'parts': [o[1] for o in split], 'whole': joined[0][1]})
             return
-        ma = set(m for o in split for m in o[2])
+        ma = set(m[len('STALE-CALLBACK: '):] if m.startswith('STALE-CALLBACK: ') else m for o in split for m in o[2])
         mb = set(joined[0][2])
         # "undefined macro" diagnostics quote the whole text of the block, which is the same in both; compare as sets
         if ma != mb:
@@ -277,6 +285,10 @@ class C15(Prop):
                         while any(ev[0] == 'explicit' for ev in e['ev']):
                             e = self.element(rng)
                     els.append(e)
+                if rng.random() < 0.3 and not (eff & 4):
+                    # class names, css or a block option left pending at the end of the call (they land on the first block of
+                    # the next one; the ids allocated so far stay allocated)
+                    els.append({'src': rng.choice(['.dangling', '."color:red"', '.dng +macros', '.dng\n\n']), 'ev': []})
                 docs.append(els)
             yield {'docs': docs, 'reset_at': reset_at, 'modes': modes}
 
@@ -417,6 +429,13 @@ class C19(Prop):
                 src = "{m1} = 'value one'\n\n%s {m1}\n\n%s\n\n%s" % (ptext(rng), host, ptext(rng))
                 yield {'src': src, 'safeMode': rng.choice([8, 9, 10, 11]), 'fault': 'undefined-macro', 'expect': 'undefined macro: {m3}', 'nkinds': 3}
                 continue
+            if rng.random() < 0.06:
+                # F43: a reset element restores the defaults (definitions, options) but not the callback of the call in progress
+                fault, expect = rng.choice([('{m3} ' + ptext(rng), 'undefined macro: {m3}'), (".safeMode = '16'", 'illegal safeMode API option value'),
+                                            ('```\ncode', 'unterminated code block'), (ptext(rng) + ' {m1}', 'undefined macro: {m1}')])
+                src = "{m1} = 'value one'\n\n%s {m1}\n\n.reset = 'true'\n\n%s" % (ptext(rng), fault)
+                yield {'src': src, 'safeMode': 0, 'fault': 'after-reset', 'expect': expect, 'nkinds': 3}
+                continue
             f = rng.choice(self.FAULTS)
             if f == 'unterminated':
                 name, block = rng.choice([('code', '```\ncode'), ('code', '--\ncode'), ('quote', '""\nquote'), ('division', '..\ndiv'),
@@ -484,6 +503,13 @@ class C19(Prop):
             if other:
                 res.violation('fault %s produced unrelated diagnostics' % case['fault'], case, list(a[2]))
                 return
+        if case['fault'] and case['fault'] != 'after-reset':
+            # the same document once more in the same session (no reset): the fault is reported again - a diagnostic belongs to
+            # the render call that meets the fault, whatever was reported before
+            again, _, ok2 = run_session(ctx, [st, dict(st, reset=None)], res, case)
+            if ok2 and again[1][0] == 'ok' and not [m for m in again[1][2] if m.startswith(case['expect'])]:
+                res.violation('fault %s was not reported when the document was rendered a second time' % case['fault'], case, list(again[1][2]))
+                return
         ctx.impl.reset_process()
         b = ctx.impl.render(case['src'], safeMode=case['safeMode'], reset=True, callback=False)
         if b[0] != 'ok' or b[1] != a[1]:
@@ -520,7 +546,10 @@ class C12(Prop):
                 target = rng.choice(['<div class="a" title="q">x</div>', '<div style="a:b;" class="k">x</div>', '<p style="a:b">x</p>',
                                      '<div id="own" class="">x</div>', '<!-- c --><div>x</div>', '<h1 class="t" data-q="a&quot;b">x</h1>',
                                      '<div\nclass="a">x</div>', '<span>x</span> tail', '..\ninner *b* {mm}\n..', '```\n<b> *c*\n```',
-                                     '""\n- i1\n- i2\n""', '<div class="a">\n<p class="b" style="c:d">x</p>\n</div>'])
+                                     '""\n- i1\n- i2\n""', '<div class="a">\n<p class="b" style="c:d">x</p>\n</div>',
+                                     # the first tag once more, later in the same block: only the first one takes the attributes
+                                     '<p class="note">one</p>\n<p class="note">two</p>', '<div style="a:b">x</div> <div style="a:b">y</div>',
+                                     '<p class="k" style="m:n">x</p>\n<p class="k" style="m:n">y</p>\n<p class="k">z</p>'])
                 yield {'merge': True, 'with': "{mm} = 'MM'\n\n" + line + '\n' + target + '\n\nnext *para*', 'safeMode': mode}
                 continue
             if rng.random() < 0.08:
@@ -540,9 +569,13 @@ class C12(Prop):
                     opts.remove('+spans')
                 sep = rng.choice([' ', ' ', '  '])
                 line = '.' + rng.choice(['', 'k1 ']) + sep.join(opts)
-                kinds = rng.choice([('para', 'code'), ('code', 'para'), ('para', 'para'), ('code', 'code')])
-                body = {'para': 'T {mm} *b* &c', 'code': '```\nT {mm} *b* &c\n```'}
+                # F37: before a header or a list the options end with that block too (they alter nothing there, and nothing after it)
+                kinds = rng.choice([('para', 'code'), ('code', 'para'), ('para', 'para'), ('code', 'code'),
+                                    ('head', 'para'), ('head', 'code'), ('list', 'para'), ('list', 'code')])
+                body = {'para': 'T {mm} *b* &c', 'code': '```\nT {mm} *b* &c\n```', 'head': '# T {mm} *b* &c', 'list': '- T {mm} *b* &c'}
                 between = rng.choice(['', '', '// comment\n\n', '- item\n\n', '# Head\n\n'])
+                if kinds[0] == 'list' and between.startswith('- '):
+                    between = ''        # (it would be a further item of the same list)
                 yield {'options': opts, 'kinds': list(kinds), 'between': between,
                        'with': "{mm} = 'MM'\n\n%s\n%s\n\n%s%s" % (line, body[kinds[0]], between, body[kinds[1]]),
                        'safeMode': mode, 'cls': 'k1 ' in line}
@@ -632,6 +665,12 @@ class C12(Prop):
                 if not a[0][1].endswith('<p>next <em>para</em></p>'):
                     res.violation('Block Attributes merged into the attributes of the target block also reach the block after it',
                                   case, short(a[0][1]))
+                    return
+                line = case['with'].split('\n')[2]
+                for marker in ('c1', 'c2', 'color:red', 'i9', 'x:y', 'title="t"'):
+                    if marker in line and a[0][1].count(marker) > 1:
+                        res.violation('Block Attributes were applied to more than the first tag of the target block', case, short(a[0][1]))
+                        return
             return
         if case.get('options'):
             if a[0][0] != 'ok':
@@ -644,6 +683,9 @@ class C12(Prop):
             mm = 'MM' if defined else '{mm}'
 
             def block(kind, opts, cls):
+                if kind in ('head', 'list'):
+                    text = 'T %s <em>b</em> &amp;c' % mm
+                    return ('<h1%s>%s</h1>' if kind == 'head' else '<ul%s><li>%s</li></ul>') % (cls, text)
                 macros, spans, specials = (True, True, True) if kind == 'para' else (False, False, True)
                 if '+macros' in opts:
                     macros = True
@@ -1010,6 +1052,13 @@ class C17(Prop):
                         ('# \\%s%s', '<h1>%s%s</h1>'), ('- a\n- \\%s%s', '<ul><li>a</li><li>%s%s</li></ul>'), ('** \\%s%s', '<ul><li>%s%s</li></ul>')]
                 cs, ce = rng.choice(ctxs)
                 yield {'src': head + cs % (e, rest), 'expected': ce % (esc(e), esc(rest)), 'safeMode': mode, 'n': 2, 'line_level': False}
+                continue
+            if rng.random() < 0.05:
+                # F40: the line starts with an invocation (a line macro: expanded, read again); the escaped ones after it stay as written
+                w = rng.choice(PLAIN)
+                e2 = rng.choice(['{m1}', '{m1|%s}' % w.strip(), '{m1?}', '{m1!}', '{undefined}'])
+                src = '{m1} %s \\%s %s \\{m1}' % (w, e2, w)
+                yield {'src': head + src, 'expected': '<p>%s %s %s %s {m1}</p>' % ('MACRO' if mode == 0 or mode & 8 else '{m1}', esc(w), esc(e2), esc(w)), 'safeMode': mode, 'n': 2, 'line_level': False}
                 continue
             if rng.random() < 0.6:
                 n = rng.randint(1, 8)
